@@ -36,6 +36,8 @@ def worker_main(argv):
         resource.setrlimit(resource.RLIMIT_FSIZE, (1 << 30, 1 << 30))
     except (ValueError, OSError):
         pass
+    if os.environ.get('VERIF_PYREACH'):
+        _pyreach_start(os.environ['VERIF_PYREACH'])
     mod = importlib.import_module(modname)
     out = open(outfile, 'a')
     with open(casefile) as f:
@@ -52,6 +54,33 @@ def worker_main(argv):
         out.write(json.dumps({"idx": idx, "res": res}, default=_jd) + "\n")
         out.flush()
     out.close()
+
+
+def _pyreach_start(outdir):
+    """Reach evidence for the Python layer (tools/pyreach.py; never part of a verdict): record which functions of the working tree's
+    rebound/*.py a check's workers enter.  sys.monitoring PY_START with DISABLE per code object: one callback per function per worker."""
+    import atexit
+    seen = set()
+    mon = sys.monitoring
+    tid = mon.PROFILER_ID
+    try:
+        mon.use_tool_id(tid, 'verif-pyreach')
+    except ValueError:
+        return
+
+    def on_start(code, off):
+        fn = code.co_filename
+        if os.sep + 'rebound' + os.sep in fn and os.sep + 'tests' + os.sep not in fn:
+            seen.add((os.path.basename(os.path.dirname(fn)) + '/' + os.path.basename(fn), code.co_qualname, code.co_firstlineno))
+        return mon.DISABLE
+    mon.register_callback(tid, mon.events.PY_START, on_start)
+    mon.set_events(tid, mon.events.PY_START)
+
+    def dump():
+        os.makedirs(outdir, exist_ok=True)
+        with open(os.path.join(outdir, 'w%d.json' % os.getpid()), 'w') as f:
+            json.dump(sorted(seen), f)
+    atexit.register(dump)
 
 
 def _jd(o):
